@@ -655,14 +655,8 @@ fn main() {
     let adlt = a.str("--adlt", "adlt");
     let work = a.str("--work", ".");
     let _ = std::fs::remove_dir_all(format!("{}/files", work));
-    if let Ok(rd) = std::fs::read_dir(&work) {
-        for e in rd.flatten() {
-            let name = e.file_name().to_string_lossy().to_string();
-            if name.starts_with("server-") && name.ends_with(".stderr") {
-                let _ = std::fs::remove_file(e.path());
-            }
-        }
-    }
+    let _ = std::fs::remove_dir_all(format!("{}/srv", work));
+    std::fs::create_dir_all(format!("{}/srv", work)).unwrap();
     std::fs::create_dir_all(format!("{}/files", work)).unwrap();
     let nworkers = a.num("--workers", 8) as usize;
     let sample_every = a.num("--sample-every", 25);
@@ -774,7 +768,7 @@ fn main() {
                         s.stop();
                         panics.lock().unwrap().extend(s.panic_lines());
                     }
-                    servers.insert(key.clone(), Server::start(&adlt, &work, &format!("w{}-{}", wid, key.replace(':', "_")), c.throttle.as_deref()));
+                    servers.insert(key.clone(), Server::start(&adlt, &format!("{}/srv", work), &format!("w{}-{}", wid, key.replace(':', "_")), c.throttle.as_deref()));
                 }
                 let srv = servers.get_mut(&key).unwrap();
                 let force_slow = c.pred.is_none() || i % (sample_every as usize) == 0;
@@ -793,8 +787,15 @@ fn main() {
             }
         }));
     }
+    let mut worker_failed = false;
     for h in hs {
-        let _ = h.join();
+        if h.join().is_err() {
+            worker_failed = true;
+        }
+    }
+    if worker_failed || results.lock().unwrap().len() != cases.len() {
+        eprintln!("x05 driver: a worker thread failed or cases are missing ({} of {})", results.lock().unwrap().len(), cases.len());
+        std::process::exit(3);
     }
     let mut t = Trace::create(&a.str("--out", "trace.ndjson"));
     let (mut replayed, mut fast, mut slow, mut drift, mut frames, mut lcs_frames, mut msgs) = (0u64, 0u64, 0u64, 0u64, 0u64, 0u64, 0u64);
